@@ -127,3 +127,7 @@ Lemma api_names :
   (forall ob n, run_op3 (OAddToObject KNull ob n) = (q <~ cJSON_AddNullToObject nv ob n ;; ret (R (RPtr q)))) /\
   (forall ob n s, run_op3 (OAddToObject (KString s) ob n) = (q <~ cJSON_AddStringToObject nv ob n s ;; ret (R (RPtr q)))).
 Proof. repeat split. Qed.
+
+(** every represented heap encodes the forest of its abstract state *)
+Lemma Abs3_WF h S : Abs3 h S -> WF h (a_forest S).
+Proof. intros HA. exact (proj1 (proj1 (proj1 HA))). Qed.
